@@ -349,7 +349,7 @@ mk_pds_message('one carrier')
 mk_pds_message('two carriers')
 
 
-@unit('loads-hex-bitmap/arbitrary-character', props=['C07'], functions=[Q + 'loads', Q + '_iso8583_to_dict', Q + '_get_bitmap_list'])
+@unit('loads-hex-bitmap/arbitrary-character', props=['C07', 'C08'], functions=[Q + 'loads', Q + '_iso8583_to_dict', Q + '_get_bitmap_list'])
 def u_hex_bitmap_any(E):
     """hex bitmap rendering: one bitmap character arbitrary (hex digit or not), everything after the bitmap arbitrary;
     and messages too short to hold a hex bitmap"""
@@ -373,6 +373,12 @@ def u_hex_bitmap_any(E):
         E.call(Q + 'loads', raw, encoding=enc, hex_bitmap=TRUE)
     except PyRaise as pr:
         E.prove('loads[hex bitmap, arbitrary character]/only-the-library-error-escapes(%s)' % E.exc_name(pr.exc), z3.BoolVal(E.exc_is(pr.exc, ERR)), 'P', 'xpost')
+        E.cover('loads-hex/any')
+        return
+    # C08: a message is accepted only if its bitmap field IS a hex rendering (no sign, blank, underscore, prefix ...)
+    c = I(x.at(z3.IntVal(0)))
+    E.prove('loads[hex bitmap, arbitrary character]/accepted-only-if-the-bitmap-field-is-hex-digits',
+            z3.Or(z3.And(c >= 48, c <= 57), z3.And(c >= 97, c <= 102), z3.And(c >= 65, c <= 70)), 'P')
     E.cover('loads-hex/any')
 
 
